@@ -2,6 +2,7 @@
    pinned schema names; the algorithms themselves are C14. -/
 import FinProto.Obl.SPinnedTypes
 import FinProto.Props.EncLemmas
+import FinProto.Props.ChecksumProofs
 set_option linter.defProp false
 namespace FinProto.Obl
 open FinProto
@@ -11,5 +12,13 @@ theorem C05_frames_recognised : Gen.types.map (·.frame) = Pinned.types.map (·.
 
 /-- `frame_cks_exact` at the regenerated environment -/
 def C05_repo := @frame_cks_exact Gen.env
+
+/-- the value a frame stores is the exchange's algorithm: byte sum mod 256 (SSE, SZSE), CRC-32/ISO-HDLC (sample) -/
+theorem C05_sse_alg (bs : Bytes) : cksNat .sse bs = (bs.map (·.toNat)).sum % 256 := sseGo_eq bs
+theorem C05_szse_alg (bs : Bytes) : cksNat .szse bs = (bs.map (·.toNat)).sum % 256 := szseGo_eq bs
+theorem C05_crc32_alg (bs : Bytes) :
+    BitVec.ofNat 32 (cksNat .crc32 bs) = crcRef ⟨0x04C11DB7#32, 0xFFFFFFFF#32, 0xFFFFFFFF#32, true, true⟩ bs := by
+  rw [← crc32Go_eq_ieee]
+  simp [cksNat]
 
 end FinProto.Obl
